@@ -34,6 +34,11 @@ def run(ctx, ss):
     # to_string renders self.to_dict(): every position of a repeated decaying daughter must be expanded there
     from .c11 import c11_2
     ctx.guard("C13.4", lambda c, s: _as(c, s, c11_2, "C13.4"), ss)
+    # C13.5: nothing on the way from the observed entry points is memoised on a parser / tree / path / container (shared.py)
+    from .shared import memo_for
+    ctx.guard("C13.5", memo_for, ss, "C13", "C13.5", "a descriptor")
+    from .c11 import chain_ctor_clauses
+    ctx.guard("C13.4", chain_ctor_clauses, ss, "C13.4")
 
 
 def c13_1(ctx, ss):
